@@ -389,7 +389,8 @@ type concResult struct {
 }
 
 // concurrentPhase runs the workers of w under the scheduler with fresh shared resolver instances.
-func concurrentPhase(run *core.Run, w *workload, cfg sched.Config, fine bool) concResult {
+func concurrentPhase(run *core.Run, w *workload, cfg sched.Config, fine bool, opOnly ...bool) concResult {
+	boundaryOnly := len(opOnly) > 0 && opOnly[0]
 	nworkers := len(w.workers)
 	shared := env{ident: newIdentResolver(w.identKind, w.failPaths), name: faults.NameResolver(w.nameKind, gen.Truth())}
 	s := theSched
@@ -419,6 +420,9 @@ func concurrentPhase(run *core.Run, w *workload, cfg sched.Config, fine bool) co
 				}()
 				s.Wait(i)
 				y := func(site string) {
+					if boundaryOnly && !strings.HasPrefix(site, "op:") {
+						return
+					}
 					step := s.Yield(i)
 					st.trace = append(st.trace, fmt.Sprintf("%06d w%d %s", step, i, site))
 				}
@@ -536,6 +540,17 @@ func runScheduled(run *core.Run) {
 		racesBefore = raceorc.Errors()
 		raceorc.Drain()
 		cr = concurrentPhase(run, w, cfg, false)
+	}
+	if cr.aborted {
+		// Still blocked with decision points at resolver calls. A library may legitimately hold a
+		// lock of its own while it calls the caller's resolver; a worker parked inside that call
+		// then blocks the others by the simulator's doing. At operation boundaries no dst code is
+		// on any parked worker's stack, so a hang that persists there is dst's own (a lock it
+		// leaked): only that is reported.
+		run.Count("coarse-run-abandoned(turn-holder-blocked)")
+		racesBefore = raceorc.Errors()
+		raceorc.Drain()
+		cr = concurrentPhase(run, w, cfg, false, true)
 	}
 	ws, trace, aborted, doneMask := cr.ws, cr.trace, cr.aborted, cr.doneMask
 	s := theSched
